@@ -65,6 +65,9 @@ Unadopted == (\E s \in Subs : sstat[s] \in {"queued", "qfailed"})
 Unyielded == \E p \in Pubs : pstat[p] = "live" /\ sent[p] < pubd[p]
 Undelivered == \E s \in Subs : Healthy(s) /\ recv[s] # Owed(s)
 Unflushed == \E s \in Subs : Healthy(s) /\ flushed[s] # Len(recv[s])
+\* C08: when a peer has failed in this run, what is still owed to the healthy ones is also harm done by it
+PeerFailed == \E s \in Subs : sstat[s] \in {"failed", "qfailed"}
+Harm(props) == IF PeerFailed THEN props \cup {"C08"} ELSE props
 
 \* generous polynomial bound on the inner polls of one outer poll (C09)
 TotalPublished == LET Sum[S \in SUBSET Pubs] ==
@@ -131,14 +134,14 @@ Step(e) ==
             \* idle, not woken, every sink writable: nothing may be left to do
             IF closed THEN Flag({"C16", "C09"}, "closed_channel_not_finished")
             ELSE IF Unadopted THEN Flag({"C09", "C01"}, "quiescent_unadopted_registration")
-            ELSE IF Undelivered THEN Flag({"C01", "C09"}, "quiescent_undelivered")
+            ELSE IF Undelivered THEN Flag(Harm({"C01", "C09"}), "quiescent_undelivered")
             ELSE IF Unyielded THEN Flag({"C09", "C01"}, "quiescent_unyielded_stream_item")
-            ELSE IF Unflushed THEN Flag({"C01", "C09"}, "quiescent_unflushed")
+            ELSE IF Unflushed THEN Flag(Harm({"C01", "C09"}), "quiescent_unflushed")
             ELSE Stutter
       [] e.ev = "finished" ->
             IF ~closed THEN Flag({"C16"}, "finished_without_close")
-            ELSE IF Undelivered THEN Flag({"C16"}, "finished_undelivered")
-            ELSE IF Unflushed THEN Flag({"C16"}, "finished_unflushed")
+            ELSE IF Undelivered THEN Flag(Harm({"C16"}), "finished_undelivered")
+            ELSE IF Unflushed THEN Flag(Harm({"C16"}), "finished_unflushed")
             ELSE Stutter
       [] OTHER -> Stutter
 
